@@ -39,6 +39,7 @@ def run(chk):
                                   {"file_hex": x["bytes"], "expect": x["expect"], "model_samples": r.get("samples"), "cfg": x.get("cfg")})
         out["spec_stream_failures"] = bad
         out.update(codec_common.encoder_model_tie(chk, c.cases))
+        out.update(codec_common.composed_model_tie(chk, c.cases))
         return out
 
     cu.simple_check(
